@@ -61,11 +61,22 @@ where
             None => path,
             Some(base) => {
                 let (base, path) = if base.starts_with('/') {
-                    (base.trim_start_matches('/'), path.trim_start_matches('/'))
+                    (
+                        base.trim_start_matches('/'),
+                        path.strip_prefix('/').unwrap_or(path),
+                    )
                 } else {
                     (base.as_ref(), path)
                 };
-                path.strip_prefix(base)?
+                let rest = path.strip_prefix(base)?;
+                // the base has to end at a segment boundary
+                if !(base.is_empty()
+                    || rest.is_empty()
+                    || rest.starts_with('/'))
+                {
+                    return None;
+                }
+                rest
             }
         };
 
